@@ -7,10 +7,10 @@
 //! IMPL  per command: the calls the wrapped builder received, then `; <current_position>`;
 //!       finally `build` and the calls made by `build()`.  Several sequences per case are
 //!       separated by `|`.
-//! CASE  the commands; for arc commands additionally the arc geometry computed with lyon_geom's
-//!       public API at the adapter's current position (straight line? centre == current?
-//!       arc start, `< 0.01` test, the `(ctrl, to)` list) — the model takes it as its `Geo`
-//!       parameter and replays the state machine.
+//! CASE  the commands; for arc commands additionally the radii and what lyon_geom's public API
+//!       computes for that arc at the adapter's current position (centre, `Arc::from()`, the
+//!       `(ctrl, to)` list).  The model decides the branches of `arc`/`arc_to` itself
+//!       (`is_straight_line`, `approx_eq(center)`, the `< 0.01` test) at Float32.
 //! ORCL  (1) recorded calls are `(begin edge* end)*`; (2) an independent reference interpreter of
 //!       the SVG path rules (f64) predicts every command's calls and current point: relative
 //!       resolution, H/V, implicit move-to, close, smooth reflection only after a curve of the
@@ -18,14 +18,13 @@
 //!       handed down are `num_attributes` zeros; (4) the `Path` built by the same commands
 //!       iterates to the events the recorded calls denote.
 //!
-//! Families: `exh` all sequences of length ≤ 3 over a 39-letter alphabet (19 trait commands +
+//! Families: `wit` fixed sequences (finding witnesses, lyon's own tests); `exh` all sequences of length ≤ 3 over a 39-letter alphabet (19 trait commands +
 //! `arc`, two operand choices each); `exhm` the same after `M 1 2`; `blk` (thorough) all sequences of length 4 in blocks of 39; `rnd` random
 //! sequences up to length 60; `pat` short random sequences biased to curves/arcs/smooth/close.
 
 use lyon_path::builder::{Build, PathBuilder, SvgPathBuilder, WithSvg};
-use lyon_path::geom::euclid::approxeq::ApproxEq;
 use lyon_path::geom::{Arc, ArcFlags, SvgArc};
-use lyon_path::math::{point, vector, Angle, Point, Vector};
+use lyon_path::math::{point, vector, Angle, Point, Rotation, Vector};
 use lyon_path::{Attributes, EndpointId, Path, PathEvent};
 use std::cell::RefCell;
 use std::rc::Rc;
@@ -171,36 +170,42 @@ impl Cmd {
     }
 }
 
-/// what `WithSvg::arc` sees of the arc, computed here from lyon_geom's public API
+/// What lyon_geom computes for an arc command at the adapter's current position: the centre
+/// (`SvgArc::to_arc().center`, or the given one for `arc`), `Arc::from()` and the `(ctrl, to)`
+/// pairs of `for_each_quadratic_bezier`.  Which branch `arc` / `arc_to` takes (straight line,
+/// centre == current, connecting line) is decided by the MODEL from these numbers and the
+/// operands, not here.
 #[derive(Clone, Debug)]
-enum AGeo {
-    Skip,
-    Curve { start: Point, near: bool, quads: Vec<(Point, Point)> },
+struct AGeo {
+    radii: Vector,
+    center: Point,
+    start: Point,
+    quads: Vec<(Point, Point)>,
 }
 
-#[derive(Clone, Debug)]
-enum SGeo {
-    Straight,
-    Arc(AGeo),
-}
-
-fn center_geo(cur: Point, center: Point, radii: Vector, sweep_angle: Angle, x_rotation: Angle) -> AGeo {
-    if cur.approx_eq(&center) {
-        return AGeo::Skip;
+impl AGeo {
+    fn none(radii: Vector) -> AGeo {
+        AGeo { radii, center: point(0., 0.), start: point(0., 0.), quads: vec![] }
     }
-    let start_angle = (cur - center).angle_from_x_axis() - x_rotation;
-    let arc = Arc { center, radii, start_angle, sweep_angle, x_rotation };
-    let start = arc.from();
-    let near = (start - cur).square_length() < 0.01;
-    let mut quads = Vec::new();
-    arc.cast::<f64>().for_each_quadratic_bezier(&mut |c| {
-        let c = c.cast::<f32>();
-        quads.push((c.ctrl, c.to));
-    });
-    AGeo::Curve { start, near, quads }
 }
 
-fn endpoint_geo(cur: Point, to: Point, p: &ArcP) -> SGeo {
+fn center_geo(cur: Point, center: Point, radii: Vector, sweep_angle: Angle, x_rotation: Angle, cmd_radii: Vector) -> AGeo {
+    vh::guarded(|| {
+        let v = Rotation::new(-x_rotation).transform_vector(cur - center);
+        let start_angle = vector(v.x / radii.x, v.y / radii.y).angle_from_x_axis();
+        let arc = Arc { center, radii, start_angle, sweep_angle, x_rotation };
+        let start = arc.from();
+        let mut quads = Vec::new();
+        arc.cast::<f64>().for_each_quadratic_bezier(&mut |c| {
+            let c = c.cast::<f32>();
+            quads.push((c.ctrl, c.to));
+        });
+        AGeo { radii: cmd_radii, center, start, quads }
+    })
+    .unwrap_or(AGeo { radii: cmd_radii, center, start: point(0., 0.), quads: vec![] })
+}
+
+fn endpoint_geo(cur: Point, to: Point, p: &ArcP) -> AGeo {
     let svg_arc = SvgArc {
         from: cur,
         to,
@@ -208,11 +213,12 @@ fn endpoint_geo(cur: Point, to: Point, p: &ArcP) -> SGeo {
         x_rotation: Angle::radians(p.rot),
         flags: ArcFlags { large_arc: p.large, sweep: p.sweep },
     };
+    // only to avoid feeding zero radii to the conversion (NaNs); the model makes its own decision
     if svg_arc.is_straight_line() {
-        SGeo::Straight
+        AGeo::none(p.radii)
     } else {
         let arc = svg_arc.to_arc();
-        SGeo::Arc(center_geo(cur, arc.center, arc.radii, arc.sweep_angle, arc.x_rotation))
+        center_geo(cur, arc.center, arc.radii, arc.sweep_angle, arc.x_rotation, p.radii)
     }
 }
 
@@ -246,7 +252,7 @@ fn apply<B: PathBuilder>(b: &mut WithSvg<B>, c: &Cmd) {
 struct Run {
     per_cmd: Vec<Vec<Call>>,
     curs: Vec<Point>,
-    geos: Vec<Option<SGeo>>,
+    geos: Vec<Option<AGeo>>,
     build_calls: Vec<Call>,
     bad_attr: Option<String>,
 }
@@ -261,7 +267,7 @@ fn run(cmds: &[Cmd]) -> Run {
         r.geos.push(match c {
             Cmd::A(a, to) => Some(endpoint_geo(cur, *to, a)),
             Cmd::Ar(a, v) => Some(endpoint_geo(cur, cur + *v, a)),
-            Cmd::R(center, radii, sweep, rot) => Some(SGeo::Arc(center_geo(cur, *center, *radii, Angle::radians(*sweep), Angle::radians(*rot)))),
+            Cmd::R(center, radii, sweep, rot) => Some(center_geo(cur, *center, *radii, Angle::radians(*sweep), Angle::radians(*rot), *radii)),
             _ => None,
         });
         apply(&mut b, c);
@@ -281,20 +287,13 @@ fn run(cmds: &[Cmd]) -> Run {
 // printing
 
 fn put_ageo(o: &mut Out, g: &AGeo) {
-    match g {
-        AGeo::Skip => {
-            o.t("sk");
-        }
-        AGeo::Curve { start, near, quads } => {
-            o.t("cv").p(*start).b(*near).u(quads.len() as u64);
-            for (c, t) in quads {
-                o.p(*c).p(*t);
-            }
-        }
+    o.v(g.radii).p(g.center).p(g.start).u(g.quads.len() as u64);
+    for (c, t) in &g.quads {
+        o.p(*c).p(*t);
     }
 }
 
-fn put_cmd(o: &mut Out, c: &Cmd, g: &Option<SGeo>) {
+fn put_cmd(o: &mut Out, c: &Cmd, g: &Option<AGeo>) {
     o.t(c.letter());
     match *c {
         Cmd::M(p) | Cmd::L(p) | Cmd::T(p) => {
@@ -327,19 +326,13 @@ fn put_cmd(o: &mut Out, c: &Cmd, g: &Option<SGeo>) {
         }
         Cmd::R(..) => {}
     }
-    match (c, g) {
-        (Cmd::R(..), Some(SGeo::Arc(a))) => put_ageo(o, a),
-        (Cmd::R(..), _) => {
-            o.t("sk");
-        }
-        (Cmd::A(..) | Cmd::Ar(..), Some(SGeo::Arc(a))) => {
-            o.t("ar");
-            put_ageo(o, a);
-        }
-        (Cmd::A(..) | Cmd::Ar(..), _) => {
-            o.t("st");
-        }
-        _ => {}
+    if c.is_arc() {
+        let radii = match c {
+            Cmd::A(a, _) | Cmd::Ar(a, _) => a.radii,
+            Cmd::R(_, r, _, _) => *r,
+            _ => vector(0., 0.),
+        };
+        put_ageo(o, &g.clone().unwrap_or(AGeo::none(radii)));
     }
 }
 
@@ -426,13 +419,16 @@ struct Ref {
     /// no move-to (explicit or substituted) happened yet
     empty: bool,
     prev: Prev,
-    /// accumulated allowance: 0 until a genuine arc was drawn (everything before is exact)
-    tol: f64,
+    /// a genuine arc was drawn: from then on the implementation's coordinates are rounded f32
+    /// values (before, all arithmetic on the integer operands is exact and compared exactly)
+    inexact: bool,
+    /// largest coordinate magnitude seen so far (scale of the rounding allowance)
+    maxmag: f64,
 }
 
 impl Ref {
     fn new() -> Ref {
-        Ref { cur: (0.0, 0.0), start: (0.0, 0.0), open: false, empty: true, prev: Prev::Other, tol: 0.0 }
+        Ref { cur: (0.0, 0.0), start: (0.0, 0.0), open: false, empty: true, prev: Prev::Other, inexact: false, maxmag: 0.0 }
     }
 
     fn move_to(&mut self, p: P2, out: &mut Vec<Exp>) {
@@ -503,9 +499,9 @@ impl Ref {
         let from = self.cur;
         // after an earlier arc the implementation's current point is only near ours: if the
         // target is within that allowance it may or may not see identical endpoints
-        let allowance = if self.tol > 0.0 { self.tol * 1.0001 + 1e-4 * (1.0 + mag(from)) } else { 0.0 };
+        let allowance = self.tol();
         let same = dist(from, to) <= allowance;
-        if a.radii.x == 0.0 || a.radii.y == 0.0 || (same && self.tol == 0.0) {
+        if a.radii.x == 0.0 || a.radii.y == 0.0 || (same && !self.inexact) {
             self.line(to, out);
             self.prev = Prev::Arc;
             return;
@@ -521,7 +517,7 @@ impl Ref {
         let tol = 4e-3 * scale;
         out.push(Exp::ArcChain { from, to, tol, or_line });
         self.cur = to;
-        self.tol += tol;
+        self.inexact = true;
         self.prev = Prev::Arc;
     }
 
@@ -544,7 +540,21 @@ impl Ref {
             self.prev = Prev::Arc;
         }
         self.cur = p2(cur);
-        self.tol += 1e-4 * (1.0 + mag(self.cur));
+        self.inexact = true;
+        self.see(self.cur);
+    }
+
+    fn see(&mut self, p: P2) {
+        self.maxmag = self.maxmag.max(mag(p));
+    }
+
+    /// rounding allowance for comparisons with the implementation's f32 values
+    fn tol(&self) -> f64 {
+        if self.inexact {
+            1e-4 * (1.0 + self.maxmag)
+        } else {
+            0.0
+        }
     }
 
     fn step(&mut self, c: &Cmd) -> Vec<Exp> {
@@ -702,7 +712,25 @@ fn oracle(cmds: &[Cmd], r: &Run, orc: &mut Oracle) {
         } else {
             "generic"
         };
-        let tol = rf.tol * 1.0001 + if rf.tol > 0.0 { 1e-4 * (1.0 + mag(rf.cur)) } else { 0.0 };
+        rf.see(rf.cur);
+        for g in got {
+            match *g {
+                Call::B(p) | Call::L(p) => rf.see(p2(p)),
+                Call::Q(a, p) => {
+                    rf.see(p2(a));
+                    rf.see(p2(p))
+                }
+                Call::C(a, b, p) => {
+                    rf.see(p2(a));
+                    rf.see(p2(b));
+                    rf.see(p2(p))
+                }
+                Call::E(_) => {}
+            }
+        }
+        // an arc's implicit begin is at the arc's computed start: arc allowance applies to it too
+        let arc_at = exp.iter().find_map(|e| if let Exp::ArcChain { tol, .. } = e { Some(*tol) } else { None }).unwrap_or(0.0);
+        let tol = rf.tol() + arc_at;
         let near = |a: Point, b: P2| dist(p2(a), b) <= tol;
         let mut k = 0usize; // position in got
         let mut problem: Option<(String, &'static str)> = None;
@@ -716,7 +744,8 @@ fn oracle(cmds: &[Cmd], r: &Run, orc: &mut Oracle) {
                 (Exp::C(a1, a2, p), Some(Call::C(b1, b2, q))) => near(*b1, *a1) && near(*b2, *a2) && near(*q, *p),
                 (Exp::E(x), Some(Call::E(y))) => x == y,
                 (Exp::ArcChain { from, to, tol: at, or_line }, _) => {
-                    let t = tol + at;
+                    let _ = at;
+                    let t = tol;
                     let mut j = k;
                     if *or_line && got.len() == k + 1 {
                         if let Some(Call::L(q)) = got.get(k) {
@@ -755,7 +784,7 @@ fn oracle(cmds: &[Cmd], r: &Run, orc: &mut Oracle) {
                     }
                     if !got.is_empty() {
                         rf.cur = p2(r.curs[i]);
-                        rf.tol += 1e-4 * (1.0 + mag(rf.cur));
+                        rf.inexact = true;
                     }
                     k == got.len()
                 }
@@ -785,7 +814,13 @@ fn oracle(cmds: &[Cmd], r: &Run, orc: &mut Oracle) {
             continue;
         }
         // current point (close returns to the sub-path start, arcs end at their target, …)
-        let tol2 = rf.tol * 1.0001 + if rf.tol > 0.0 { 1e-4 * (1.0 + mag(rf.cur)) } else { 0.0 };
+        // arcs: the end point was compared with the target above (arc allowance); from here on the
+        // reference continues from the implementation's own (rounded) end point, so that the
+        // rules for the following commands are again checked up to f32 rounding only
+        if let Some(Exp::ArcChain { .. }) = exp.last() {
+            rf.resync(got, r.curs[i], true);
+        }
+        let tol2 = rf.tol();
         let cp_ok = dist(p2(r.curs[i]), rf.cur) <= tol2;
         if !cp_ok {
             let cl = if c.is_arc() { clause_of(c).to_string() } else { format!("{}/current-point", clause_of(c)) };
@@ -992,6 +1027,45 @@ fn main() {
     let alpha = alphabet();
     let n = alpha.len() as u64;
 
+    // wit: fixed sequences — the witnesses of the two findings and lyon's own svg_builder tests
+    let circ = ArcP { radii: vector(5., 5.), rot: 0.0, large: false, sweep: true };
+    let fixed: Vec<(&str, Vec<Cmd>)> = vec![
+        (
+            "smooth-cubic-after-arc",
+            vec![
+                Cmd::M(point(0., 0.)),
+                Cmd::C(point(0., 10.), point(10., 10.), point(10., 0.)),
+                Cmd::A(circ, point(20., 0.)),
+                Cmd::S(point(30., 10.), point(30., 0.)),
+            ],
+        ),
+        (
+            "smooth-quad-after-arc",
+            vec![Cmd::M(point(0., 0.)), Cmd::Q(point(5., 10.), point(10., 0.)), Cmd::A(circ, point(20., 0.)), Cmd::T(point(30., 0.))],
+        ),
+        (
+            "elliptic-arc",
+            vec![
+                Cmd::M(point(3., 1.)),
+                Cmd::A(ArcP { radii: vector(4., 3.), rot: 0.5, large: false, sweep: true }, point(6., 2.)),
+                Cmd::Lr(vector(1., 0.)),
+            ],
+        ),
+        ("line-to-after-close", vec![Cmd::L(point(1., 0.)), Cmd::Z, Cmd::L(point(2., 0.))]),
+        ("relative-curves", vec![Cmd::M(point(0., 0.)), Cmd::Qr(vector(0., 100.), vector(-100., 100.)), Cmd::Lr(vector(-50., 0.))]),
+        (
+            "arc-to-update-position",
+            vec![Cmd::M(point(0., 0.)), Cmd::A(ArcP { radii: vector(100., 100.), rot: 0.0, large: false, sweep: false }, point(0., 100.))],
+        ),
+        ("issue-650", vec![Cmd::R(point(0., 0.), vector(50., 50.), std::f32::consts::PI, 0.0)]),
+        (
+            "straight-line-arc",
+            vec![Cmd::M(point(100., 0.)), Cmd::A(ArcP { radii: vector(100., 100.), rot: 0.0, large: false, sweep: false }, point(100., 0.))],
+        ),
+    ];
+    for (name, seq) in fixed {
+        emit(&mut ctx, "wit", move |_| (name.to_string(), vec![seq]));
+    }
     // exh: every sequence of length 0..=3
     for len in 0..=3usize {
         for k in 0..n.pow(len as u32) {
